@@ -470,3 +470,26 @@ def r03g(model: Model, rr: RuleResult):
         rr.ok(f"child transform = compose({ctx}.transform, {ctx}.paint.gettransform())")
     else:
         rr.bad(fi, ctor[0], f"the child's transform is not built from {ctx}.transform and {ctx}.paint.gettransform()", construct="breadth_first: child transform sources")
+
+
+@RULES.rule("C03", "R03h", "placing composites stay composites: no ufo2ft filter / compile option decomposes (transformed) components", floor=2)
+def r03h(model: Model, rr: RuleResult):
+    mod = model.mod("write_font")
+    hits = []
+    for n in ast.walk(mod.tree):
+        if isinstance(n, ast.Assign) and any("FILTERS_KEY" in norm(t) or "ufo2ft.filters" in norm(t) for t in n.targets):
+            hits.append(n)
+        if isinstance(n, ast.Call) and callee_tail(n) in ("compileTTF", "compileOTF", "compileVariableTTF"):
+            for k in n.keywords:
+                if k.arg in ("flattenComponents", "decomposeComponents", "filters") and not (isinstance(k.value, ast.Constant) and k.value.value in (False, None)):
+                    hits.append(n)
+        if isinstance(n, ast.Call) and callee_tail(n) in ("DecomposeComponentsFilter", "DecomposeTransformedComponentsFilter", "FlattenComponentsFilter"):
+            hits.append(n)
+    for h in hits:
+        owner = next((fi for fi in mod.functions.values() if any(x is h for x in ast.walk(fi.node))), None)
+        rr.bad(owner or mod, h, f"{short(h, 90)}: a ufo2ft filter / option that decomposes components turns every rotated, mirrored or scaled copy (a composite of the shared "
+               f"outline) back into an outline of its own at compile time", construct=f"write_font: {short(h, 60)}")
+    if not hits:
+        rr.ok("write_font configures no ufo2ft filters and no component-flattening compile option")
+    c = [x for x in calls_in(mod.func("_make_ttfont")) if callee_tail(x) in ("compileTTF", "compileOTF")]
+    rr.ok(f"{len(c)} compile calls inspected")
